@@ -65,8 +65,9 @@ void one_case(Ctx &c) {
   }
   // abstract server state from which recovery is checked (public struct read for classification only)
   CO_SDO *sv = &s.node->Sdo[target];
-  bool nonidle = sv->Blk.State != BLK_IDLE || sv->Obj != 0 || sv->Buf.Num != 0;
-  char key[96]; snprintf(key, sizeof key, "recover-from:blk%d,obj%d,tbit%d,buf%s", (int)sv->Blk.State, sv->Obj != 0, sv->Seg.TBit & 1, sv->Buf.Num == 0 ? "0" : sv->Buf.Num < 8 ? "<8" : sv->Buf.Num < 889 ? "<889" : "full");
+  int blkstate; memcpy(&blkstate, &sv->Blk.State, sizeof blkstate);   // read as raw int: a server whose state was never initialised holds poison, not an enumerator
+  bool nonidle = blkstate != (int)BLK_IDLE || sv->Obj != 0 || sv->Buf.Num != 0;
+  char key[96]; snprintf(key, sizeof key, "recover-from:blk%d,obj%d,tbit%d,buf%s", blkstate > 15 || blkstate < 0 ? 99 : blkstate, sv->Obj != 0, sv->Seg.TBit & 1, sv->Buf.Num == 0 ? "0" : sv->Buf.Num < 8 ? "<8" : sv->Buf.Num < 889 ? "<889" : "full");
   c.cls(key);
   // ---- recovery
   if (by_reset) {
